@@ -431,6 +431,8 @@ ev_src_t *register_ctx_src(m_ctx_t *c, m_src_types type, process_cb proc,
 int deregister_ctx_src(m_ctx_t *c, ev_src_t **src) {
     if (src && *src) {
         poll_set_new_evt(&c->ppriv, *src, RM);
+        /* It may be still referenced by the batch of events being processed: it must be skipped there */
+        (*src)->flags |= M_SRC_ZOMBIE;
         m_mem_unrefp((void **)src);
     }
     return 0;
